@@ -105,4 +105,16 @@ func init() {
 		Stubbed: []string{"sync.Mutex/WaitGroup/Once and sync/atomic (simulated / yield-wrapped)", "the byte transport (simnet pipe) and the listener", "application handlers, preempter and binder (harness)", "idleListener, stdio and langserver are not exercised"},
 		Assumptions: []string{"the harness uses the API legally (Respond exactly once per asynchronous request, Preempt never blocks)", "the standard library is that of go1.26.8"},
 	})
+	register(&spec{
+		ID: "C26", Title: "xgo fmt never loses a file at any crash point and keeps its mode", Level: "fault_enumeration",
+		Instrument: map[string]simgen.Options{xgo + "/cmd/internal/gopfmt": {Swap: map[string]string{"os": simgen.SimosPath}}},
+		Harness:    []harnessCopy{{"c26", "cmd/internal/gopfmt"}},
+		TestPkg:    "cmd/internal/gopfmt", TestName: "TestZSimC26",
+		QuickRuns: 3000, ThoroughRuns: 300000, QuickBudget: 4 * time.Minute, ThoroughBudget: 40 * time.Minute,
+		Chunk: 190,
+		Rule: "each run draws a module directory with 1-5 files (.xgo/.gop/.go/.gox; unformatted, already formatted or syntactically invalid; modes 0644/0600/0664/0640/0755/0444; optionally in a sub-directory), an invocation (file arguments, directory, dir/...) x (plain, --smart, --smart -mvgo, -t, -n) and whether one file-system operation fails (ENOSPC with a short write, EIO, EACCES, EMFILE, EPERM at a seeded operation). A reference run without faults gives the expected formatted content; then EVERY crash point of the judged run is evaluated (before the first mutating operation, after each one, and inside writes at a seeded split). Non-trivial = the run rewrites at least one file; distinct = distinct (operation-log hash, workload hash) pairs",
+		Real: []string{"cmd/internal/gopfmt/fmt.go (flag parsing, walker, gopfmt, writeFileWithBackup, report) compiled from the working tree", "the real formatter, parser and module loader", "a real directory on tmpfs: every operation is forwarded to the kernel"},
+		Stubbed: []string{"package os as seen by fmt.go (simos: op log, crash-point hooks, error injection, os.Exit as a recoverable panic)", "process kill: modelled as 'completed system calls survive, nothing else happens' and evaluated by inspecting the directory at each point instead of killing and restarting"},
+		Assumptions: []string{"process-crash model (SIGKILL), not power loss: no fsync/ordering semantics are assumed", "the formatter's output for a file is what an undisturbed run of the same command produces", "rename(2) over an existing file is atomic"},
+	})
 }
